@@ -175,7 +175,9 @@ func mergeASAACLs(ab *cmdsPair, name, prefix string) {
 		// By default prepend ACL lines, but append
 		// terminating 'deny ip any6 any6' line when merging v4 and v6 config.
 		i := len(prependACL) - 1
-		if prependACL[i].parsed == "access-list $NAME extended deny ip any6 any6" {
+		if !ab.b.isRaw &&
+			prependACL[i].parsed == "access-list $NAME extended deny ip any6 any6" {
+
 			acl = append(acl, prependACL[i])
 			prependACL = prependACL[:i]
 		}
